@@ -143,6 +143,10 @@ func genMultiLine(t *rapid.T) string {
 	for i := 0; i < n; i++ {
 		lines = append(lines, rapid.SampledFrom([]string{"", "", " ", "x", "; c", "{", "}", "[", "a b", "]", "  y", "\\\""}).Draw(t, "line"))
 	}
+	if n > 2 && rapid.IntRange(0, 3).Draw(t, "backslash") == 0 {
+		// a line (not the last one) ends with a backslash: the escape swallows the line break
+		lines[rapid.IntRange(0, n-2).Draw(t, "bsline")] += "\\"
+	}
 	body := strings.Join(lines, "\n")
 	switch rapid.IntRange(0, 5).Draw(t, "form") {
 	case 4:
